@@ -307,6 +307,7 @@ def handle (st : DState) (op : String) (args : List SX) : DState × SX :=
       | some T => .list [.tag "ok", SX.ofBool (tableRefused c T), encEntries T]
       | none => .tag "keyerr")
   | "indexok", [table] => (st, SX.ofBool (indexOK c (decTable table)))
+  | "namesunique", [table] => (st, SX.ofBool (namesUniqueB c (decTable table)))
   | "symrel", [a, b] =>
     let x := decAtom a; let y := decAtom b
     (st, .list [SX.ofBool (x == y), SX.ofBool (x.lt y), SX.ofBool (y.lt x), SX.ofBool (x.containsA y)])
